@@ -5,8 +5,9 @@
   `T0` are the tables regenerated on every run: sqlglot's COERCES_TO / BINARY_COERCIONS / EXPRESSION_METADATA entries / type sets /
   flags (from the live source), and the engine table A-duck (from the installed DuckDB's `typeof`, exhaustively over the
   representatives of every engine class). Theorems whose proof is `decide +kernel` are COMPLETE FINITE DECISIONS over those
-  tables (every operator × every operand summary × every compatible engine class), not samples; `class_agrees` lifts them to
-  expressions of any depth by structural induction (Proofs/Types.lean `rel_of_tablesOk`).
+  tables (every operator × every typed operand summary × every compatible engine class), not samples. `class_agrees` lifts them
+  to expressions over the columns of ANY flat schema, of any depth and with n-ary nodes of any width, by structural induction
+  (Proofs/Types.lean `rel_of_tablesOk`, `nary_sound`).
 -/
 import SqlglotModel.Proofs.Types
 import SqlglotModel.Generated.C16
@@ -53,100 +54,228 @@ theorem coerce_assoc (a b c : Ty) (hab : Comparable a b = true) (hbc : Comparabl
 example : Comparable .tinyint .double = true ∧ Comparable .date .timestamp = true ∧ Comparable .int .varchar = false := by
   decide +kernel
 
+/-! ### decimals: no precision / scale is ever computed -/
+
+/-- a parameterised DECIMAL absorbs every other type in `_maybe_coerce`, from either side (even UNKNOWN) -/
+theorem coerce_decimalP_absorbs (a : Ty) : coerce T0 .decimalP a = .decimalP ∧ coerce T0 a .decimalP = .decimalP := by
+  cases a <;> decide +kernel
+
+/-- the parameters sqlglot annotates on an arithmetic result are always those of one of its operands (or none) -/
+theorem decimal_params_never_computed (isDiv : Bool) (a b : Option Dec) :
+    sgDecArith isDiv a b = none ∨ sgDecArith isDiv a b = a ∨ sgDecArith isDiv a b = b := by
+  cases isDiv <;> cases a <;> cases b <;> simp [sgDecArith, sgDecCoerce]
+
+/-- complete finite decision: DECIMAL / DOUBLE arithmetic stays in the decimal class on the engine side -/
+theorem decimal_arith_engine_class :
+    ([BinK.add, .sub, .mul, .div, .mod, .pow].all fun k => [ETy.double, .decimal].all fun ea => [ETy.double, .decimal].all fun eb =>
+      T0.duckBin k ea eb == .double || T0.duckBin k ea eb == .decimal) = true := by decide +kernel
+
 /-! ### per-operator agreement of sqlglot's tables with the engine table (complete finite decisions) -/
 
 /-- leaves: a column of each of the property's types, literals, NULL, TRUE, INTERVAL -/
 theorem leaf_table_agrees : leafCheck T0 = true := by decide +kernel
 
-/-- every unary operator / function / cast × every operand summary × every compatible engine class, inside the domain -/
-theorem un_table_agrees : unCheck T0 = true := by decide +kernel
+/-- every unary operator / function / aggregate / wrapper / cast × every typed operand summary × every compatible engine class
+    that DuckDB accepts: it agrees IF AND ONLY IF it is in no disagreement family -/
+theorem un_table_exact : unCheck T0 = true := by decide +kernel
 
-/-- every binary operator × operand summaries² × compatible engine classes², inside the domain -/
-theorem bin_table_agrees : binCheck T0 = true := by decide +kernel
+/-- the same for every binary operator × typed operand summaries² × compatible engine classes² -/
+theorem bin_table_exact : binCheck T0 = true := by decide +kernel
 
-/-- CASE / IF over their two branches -/
-theorem tern_table_agrees : ternCheck T0 = true := by decide +kernel
+/-- the condition of CASE / IF takes no part in the inferred type -/
+theorem tern_cond_irrelevant : ternCondCheck T0 = true := by decide +kernel
+
+/-- CASE / IF over their two branches: agrees iff in no family -/
+theorem tern_table_exact : ternCheck T0 = true := by decide +kernel
+
+/-- n-ary COALESCE / GREATEST / LEAST / CASE: the metadata entries take every branch; the first branch establishes the
+    invariant between the two accumulators of `_annotate_by_args` and the engine's running join; every in-chain step preserves
+    it (all 72 accumulator states × next branch); at the end the by-args result (with `promote`) and the join agree -/
+theorem nary_table_ok : naryCheck T0 = true := by decide +kernel
 
 theorem tables_ok : TablesOk T0 = true := by
-  simp [TablesOk, leaf_table_agrees, un_table_agrees, bin_table_agrees, tern_table_agrees]
+  simp [TablesOk, leaf_table_agrees, un_table_exact, bin_table_exact, tern_cond_irrelevant, tern_table_exact, nary_table_ok]
+
+/-! ### depth 1 is decided completely: agreeing ⇔ in no family -/
+
+theorem depth1_exact_un (k : UnK) (a : Sm) (ea : ETy) (hk : unKnown k = true) (ht : (a != .of .unknown) = true)
+    (hr : Rel a ea = true) (hacc : (engUn T0 k ea != .error) = true) :
+    Rel (.of (annotUn T0 k a)) (engUn T0 k ea) = (famUn k a ea).isNone :=
+  (unCheck_iff T0 un_table_exact k a ea hk ht hr hacc).symm
+
+theorem depth1_exact_bin (k : BinK) (a b : Sm) (ea eb : ETy) (hta : (a != .of .unknown) = true)
+    (htb : (b != .of .unknown) = true) (hra : Rel a ea = true) (hrb : Rel b eb = true)
+    (hacc : (T0.duckBin k ea eb != .error) = true) :
+    Rel (.of (annotBin T0 k a b)) (T0.duckBin k ea eb) = (famBin k a b ea eb).isNone :=
+  (binCheck_iff T0 bin_table_exact k a b ea eb hta htb hra hrb hacc).symm
+
+theorem depth1_exact_tern (k : TernK) (c a b : Sm) (ea eb : ETy) (hta : (a != .of .unknown) = true)
+    (htb : (b != .of .unknown) = true) (hra : Rel a ea = true) (hrb : Rel b eb = true)
+    (hacc : (T0.duckTern k ea eb != .error) = true) :
+    Rel (.of (annotTern T0 k c a b)) (T0.duckTern k ea eb) = (famTern k a b).isNone :=
+  (ternCheck_iff T0 tern_cond_irrelevant tern_table_exact k c a b ea eb hta htb hra hrb hacc).symm
+
+/-- every listed family really occurs among the accepted depth-1 combinations (none is vacuous) -/
+theorem every_family_inhabited :
+    (Family.all.all fun f => (censusUn T0 ++ censusBin T0 ++ censusTern T0).contains (some f)) = true := by decide +kernel
 
 /-! ### the property -/
 
-/-- for every well-formed expression (any depth) what the annotator sees at the root and the engine's class describe the same
-    kind of value (string literal ↔ string literal, otherwise equal type classes) -/
-theorem rel_sound (e : TExpr) (h : WF T0 e = true) : Rel (sm T0 e) (eng T0 e) = true :=
-  rel_of_tablesOk T0 tables_ok e h
+/-- for every well-formed expression over the columns of any schema (any depth, any n-ary width) what the annotator sees at
+    the root and the engine's class describe the same kind of value -/
+theorem rel_sound (S : Schema) (e : TExpr) (h : WF T0 S e = true) : Rel (sm T0 S e) (eng T0 S e) = true :=
+  rel_of_tablesOk T0 S tables_ok e h
 
 /-- **C16 (class agreement).** For every well-formed typed expression the class of the type `annotate_types` infers equals
     the class of the type DuckDB reports (under A-duck). -/
-theorem class_agrees (e : TExpr) (h : WF T0 e = true) : eclassOf (eng T0 e) = some (classOf (annot T0 e)) :=
-  rel_class (rel_sound e h)
+theorem class_agrees (S : Schema) (e : TExpr) (h : WF T0 S e = true) :
+    eclassOf (eng T0 S e) = some (classOf (annot T0 S e)) :=
+  rel_class (rel_sound S e h)
 
 /-- the same for the type left on the tree when `annotate` returns (NULL rewritten to DEFAULT_NULL_TYPE) -/
-theorem final_class_agrees (e : TExpr) (h : WF T0 e = true) : eclassOf (eng T0 e) = some (classOf (annotFinal T0 e)) := by
+theorem final_class_agrees (S : Schema) (e : TExpr) (h : WF T0 S e = true) :
+    eclassOf (eng T0 S e) = some (classOf (annotFinal T0 S e)) := by
   have hc : ∀ t, classOf (finalTy T0 t) = classOf t := by
     intro t; cases t <;> decide +kernel
-  rw [annotFinal, hc]; exact class_agrees e h
+  rw [annotFinal, hc]; exact class_agrees S e h
 
 /-- **C16 (never narrower in kind).** An inferred integer type is never produced by the engine as a float, a decimal or text:
     the engine's class is INTEGER (a sized integer or HUGEINT). -/
-theorem int_never_narrower (e : TExpr) (h : WF T0 e = true) (hi : classOf (annot T0 e) = .integer) :
-    eng T0 e = .integer ∨ eng T0 e = .hugeint := by
-  have := class_agrees e h
+theorem int_never_narrower (S : Schema) (e : TExpr) (h : WF T0 S e = true) (hi : classOf (annot T0 S e) = .integer) :
+    eng T0 S e = .integer ∨ eng T0 S e = .hugeint := by
+  have := class_agrees S e h
   rw [hi] at this
-  cases he : eng T0 e <;> simp [he, eclassOf] at this ⊢
+  cases he : eng T0 S e <;> simp [he, eclassOf] at this ⊢
 
-/-- non-vacuity: `CASE WHEN bo THEN (ti + bi) * 1.5 ELSE ABS(de) / NULL … END`-like nested expressions are well-formed -/
+/-! ### columns: the schema's type, end to end -/
+
+/-- a column qualified with the table takes the type the schema declares (UNKNOWN if the schema has no such column) -/
+theorem column_takes_schema_type (S : Schema) (n : String) :
+    annot T0 S (.col .this n) = (S.lookup n).getD .unknown := rfl
+
+/-- annotate_types does not qualify: an unqualified column (or one qualified with something that is not a source) stays
+    UNKNOWN although DuckDB resolves it — such references are outside `WF` -/
+theorem unqualified_column_witness :
+    annot T0 [("i", .int)] (.col .none "i") = .unknown ∧ eng T0 [("i", .int)] (.col .none "i") = .integer ∧
+    WF T0 [("i", .int)] (.col .none "i") = false ∧ WF T0 [("i", .int)] (.col .this "i") = true := by decide +kernel
+
+/-! ### wrappers keep the aggregate's type -/
+
+/-- complete finite decision: by-args over one non-literal child returns the child's type -/
+theorem byArgs_single (t : Ty) : byArgs T0 [.of t] false = t := by
+  have h : (Ty.all.all fun t => byArgs T0 [.of t] false == t) = true := by decide +kernel
+  simpa using List.all_eq_true.mp h t (Ty.mem_all t)
+
+/-- `agg OVER ()` and `agg FILTER (WHERE c)` are annotated with exactly the aggregate's type, and the engine keeps its class -/
+theorem wrapper_keeps_type (S : Schema) (k : UnK) (a : TExpr) :
+    annot T0 S (.un .over (.un k a)) = annot T0 S (.un k a) ∧ annot T0 S (.un .filter (.un k a)) = annot T0 S (.un k a) ∧
+    eng T0 S (.un .over (.un k a)) = resolveE (eng T0 S (.un k a)) ∧
+    eng T0 S (.un .filter (.un k a)) = resolveE (eng T0 S (.un k a)) := by
+  have hw : T0.md .window = .byArgs [true] false := by decide +kernel
+  have hf : T0.md .filter = .byArgs [true] false := by decide +kernel
+  refine ⟨?_, ?_, rfl, rfl⟩
+  · simp only [annot, sm, Sm.ty, annotUn, unNode, annotNode, hw, applyMask]
+    exact byArgs_single _
+  · simp only [annot, sm, Sm.ty, annotUn, unNode, annotNode, hf, applyMask]
+    exact byArgs_single _
+
+/-! ### non-vacuity -/
+
+/-- the one-row table of the harness -/
+def S0 : Schema :=
+  [("bo", .boolean), ("ti", .tinyint), ("si", .smallint), ("i", .int), ("bi", .bigint), ("db", .double), ("de", .decimalP),
+   ("v", .text), ("da", .date), ("ts", .timestampntz)]
+
+def c (n : String) : TExpr := .col .this n
+
 def sample1 : TExpr :=
-  .tern .caseWhen (.bin .lt (.col .date) (.strLit .isoDate))
-    (.bin .mul (.bin .add (.col .tinyint) (.col .bigint)) .decLit)
-    (.bin .div (.un .abs (.col .decimalP)) (.un (.cast .int) (.col .text)))
-def sample2 : TExpr := .bin .coalesce (.un .sumOver (.col .smallint)) (.un .length (.bin .dpipe (.col .text) (.col .int)))
-def sample3 : TExpr := .bin .add (.col .timestampntz) (.interval true)
+  .tern .caseWhen (.bin .lt (c "da") (.strLit .isoDate))
+    (.bin .mul (.bin .add (c "ti") (c "bi")) .decLit)
+    (.bin .div (.un .abs (c "de")) (.un (.cast .int) (c "v")))
+def sample2 : TExpr :=
+  .bin .coalesce (.un .over (.un .sum (c "si"))) (.un .length (.bin .dpipe (c "v") (c "i")))
+def sample3 : TExpr := .bin .add (c "ts") (.interval true)
+/-- `COALESCE(t.ti, NULL, t.bi, 1.5, t.db, 1)` and `CASE WHEN .. THEN 'abc' WHEN .. THEN t.v ELSE NULL END` -/
+def sample4 : TExpr :=
+  .nary .coalesce (.cons (c "ti") (.cons .nullLit (.cons (c "bi") (.cons .decLit (.cons (c "db") (.cons .intLit .nil))))))
+def sample5 : TExpr := .nary .caseN (.cons (.strLit .other) (.cons (c "v") (.cons .nullLit .nil)))
+def sample6 : TExpr := .un .filter (.un .max (.nary .greatest (.cons (c "da") (.cons (c "da") .nil))))
 
-example : WF T0 sample1 = true ∧ WF T0 sample2 = true ∧ WF T0 sample3 = true := by decide +kernel
-example : annot T0 sample1 = .double ∧ eng T0 sample1 = .double := by decide +kernel
-example : annot T0 sample2 = .bigint ∧ eng T0 sample2 = .hugeint := by decide +kernel
+example : WF T0 S0 sample1 = true ∧ WF T0 S0 sample2 = true ∧ WF T0 S0 sample3 = true := by decide +kernel
+example : WF T0 S0 sample4 = true ∧ WF T0 S0 sample5 = true ∧ WF T0 S0 sample6 = true := by decide +kernel
+example : annot T0 S0 sample1 = .double ∧ eng T0 S0 sample1 = .double := by decide +kernel
+example : annot T0 S0 sample2 = .bigint ∧ eng T0 S0 sample2 = .hugeint := by decide +kernel
+example : annot T0 S0 sample4 = .double ∧ eng T0 S0 sample4 = .double := by decide +kernel
+example : annot T0 S0 sample5 = .text ∧ eng T0 S0 sample5 = .text := by decide +kernel
 
-/-! ### what the unchanged tree gets wrong (outside `WF`; each family is a known_pending/C16.json entry) -/
+/-! ### what the unchanged tree gets wrong: one kernel-decided witness per family (each is a known-finding entry) -/
 
-/-- the tables with NULLIF typed from both arguments (the unchanged tree) / from its first argument only
-    (pending_fixes/C16-nullif.diff), whatever the live table says -/
+/-- the tables with NULLIF typed from both arguments / from its first argument only, whatever the live table says -/
 def T0nullifBoth : Tables := { T0 with md := fun c => if c = .nullif then .byArgs [true, true] false else T0.md c }
 def T0nullifFirst : Tables := { T0 with md := fun c => if c = .nullif then .byArgs [true, false] false else T0.md c }
 
 /-- `NULLIF(1, UPPER(v))`: coercing both arguments gives TEXT, DuckDB returns the first argument's type (INTEGER) -/
 theorem nullif_witness :
-    let e := TExpr.bin .nullif .intLit (.un .upper (.col .text))
-    annot T0nullifBoth e = .varchar ∧ eng T0nullifBoth e = .integer ∧ annot T0nullifFirst e = .int := by decide +kernel
+    let e := TExpr.bin .nullif .intLit (.un .upper (c "v"))
+    annot T0nullifBoth S0 e = .varchar ∧ eng T0nullifBoth S0 e = .integer ∧ annot T0nullifFirst S0 e = .int := by
+  decide +kernel
 
-/-- complete finite decision: typed from its first argument, NULLIF agrees with DuckDB for EVERY pair of operands the engine
-    accepts (no domain restriction) -/
+/-- complete finite decision: typed from its first argument, NULLIF agrees with DuckDB for EVERY pair of typed operands the
+    engine accepts -/
 theorem nullif_first_arg_agrees :
-    (Sm.all.all fun a => Sm.all.all fun b => (compat a).all fun ea => (compat b).all fun eb =>
+    (Sm.typed.all fun a => Sm.typed.all fun b => (compat a).all fun ea => (compat b).all fun eb =>
       T0.duckBin .nullif ea eb == .error
       || Rel (.of (annotBin T0nullifFirst .nullif a b)) (T0.duckBin .nullif ea eb)) = true := by decide +kernel
 
-/-- `da - da`: sqlglot DATE, DuckDB BIGINT; `ts - ts`: TIMESTAMP vs INTERVAL -/
-theorem date_minus_date_witness :
-    annot T0 (.bin .sub (.col .date) (.col .date)) = .date ∧ eng T0 (.bin .sub (.col .date) (.col .date)) = .integer ∧
-    annot T0 (.bin .sub (.col .timestampntz) (.col .timestampntz)) = .timestampntz ∧
-    eng T0 (.bin .sub (.col .timestampntz) (.col .timestampntz)) = .interval := by decide +kernel
+/-- a witness: the annotated class and the engine's class of a concrete expression differ, and it is outside `WF` -/
+def Disagrees (e : TExpr) : Bool :=
+  eng T0 S0 e != .error && !(Rel (sm T0 S0 e) (eng T0 S0 e)) && !(WF T0 S0 e)
 
-/-- `da + INTERVAL 1 DAY`: sqlglot DATE (BINARY_COERCIONS `_coerce_date`), DuckDB TIMESTAMP -/
-theorem date_plus_interval_witness :
-    annot T0 (.bin .add (.col .date) (.interval true)) = .date ∧ eng T0 (.bin .add (.col .date) (.interval true)) = .timestamp := by
-  decide +kernel
+/-- `NULL + NULL`, `-NULL`, `SUM(NULL)`: UNKNOWN vs an integer overload -/
+theorem null_only_arith_disagrees_witness :
+    Disagrees (.bin .add .nullLit .nullLit) = true ∧ Disagrees (.un .neg .nullLit) = true ∧
+    Disagrees (.un .sum .nullLit) = true := by decide +kernel
+/-- `t.de + NULL`: DECIMAL vs the SQLNULL type -/
+theorem decimal_null_arith_disagrees_witness : Disagrees (.bin .add (c "de") .nullLit) = true := by decide +kernel
+/-- `'abc' + NULL`: VARCHAR vs BIGINT -/
+theorem strlit_null_arith_disagrees_witness : Disagrees (.bin .add (.strLit .other) .nullLit) = true := by decide +kernel
+/-- `t.v || NULL`: VARCHAR vs SQLNULL -/
+theorem concat_null_disagrees_witness : Disagrees (.bin .dpipe (c "v") .nullLit) = true := by decide +kernel
+/-- `t.da + INTERVAL 1 DAY`: DATE vs TIMESTAMP -/
+theorem date_interval_disagrees_witness : Disagrees (.bin .add (c "da") (.interval true)) = true := by decide +kernel
+/-- `t.da - t.da` (DATE vs BIGINT), `t.ts - t.ts` (TIMESTAMP vs INTERVAL) -/
+theorem temporal_diff_disagrees_witness :
+    Disagrees (.bin .sub (c "da") (c "da")) = true ∧ Disagrees (.bin .sub (c "ts") (c "ts")) = true := by decide +kernel
+/-- `t.ti + t.da` (TINYINT vs DATE), `INTERVAL 1 DAY + t.ts`, `t.i * INTERVAL 1 DAY` -/
+theorem mixed_chain_arith_disagrees_witness :
+    Disagrees (.bin .add (c "ti") (c "da")) = true ∧ Disagrees (.bin .add (.interval true) (c "ts")) = true ∧
+    Disagrees (.bin .mul (c "i") (.interval true)) = true := by decide +kernel
+/-- `(t.ts - t.ts) - 'abc'`: UNKNOWN vs INTERVAL -/
+theorem interval_minus_string_disagrees_witness :
+    Disagrees (.bin .sub (.bin .sub (c "ts") (c "ts")) (.strLit .other)) = true := by decide +kernel
+/-- `COALESCE(t.bo, t.si)`, `COALESCE(t.da, t.ts)`, `CASE WHEN .. THEN 'abc' ELSE 1 END`, `GREATEST(t.bo, t.ti)`, `LEAST(t.da, t.ts)` -/
+theorem mixed_chain_branches_disagrees_witness :
+    Disagrees (.bin .coalesce (c "bo") (c "si")) = true ∧ Disagrees (.bin .coalesce (c "da") (c "ts")) = true ∧
+    Disagrees (.tern .caseWhen (c "bo") (.strLit .other) .intLit) = true ∧
+    Disagrees (.bin .greatest (c "bo") (c "ti")) = true ∧ Disagrees (.bin .least (c "da") (c "ts")) = true := by decide +kernel
+/-- `SUM(t.bo)`: BOOLEAN vs HUGEINT -/
+theorem sum_boolean_disagrees_witness : Disagrees (.un .sum (c "bo")) = true := by decide +kernel
+/-- `AVG(t.da)`: DOUBLE vs TIMESTAMP -/
+theorem avg_temporal_disagrees_witness : Disagrees (.un .avg (c "da")) = true := by decide +kernel
+/-- `CEIL(t.db)` / `FLOOR(t.ti)`: INT vs DOUBLE -/
+theorem ceil_floor_disagrees_witness :
+    Disagrees (.un .ceil (c "db")) = true ∧ Disagrees (.un .floor (c "ti")) = true := by decide +kernel
+/-- `ROUND(t.ti)`: DOUBLE vs TINYINT -/
+theorem round_disagrees_witness : Disagrees (.un .round (c "ti")) = true := by decide +kernel
+/-- `CORR(t.ti, t.ti)`: TINYINT vs DOUBLE -/
+theorem corr_disagrees_witness : Disagrees (.bin .corr (c "ti") (c "ti")) = true := by decide +kernel
 
-/-- operands from different coercion chains: the first type is kept (`ti + da`, `COALESCE(bo, si)`, `COALESCE(da, ts)`,
-    `CASE WHEN bo THEN 'abc' ELSE 1 END` (two literals: the first one's type)) -/
-theorem cross_chain_witness :
-    annot T0 (.bin .add (.col .tinyint) (.col .date)) = .tinyint ∧ eng T0 (.bin .add (.col .tinyint) (.col .date)) = .date ∧
-    annot T0 (.bin .coalesce (.col .boolean) (.col .smallint)) = .boolean ∧
-    eng T0 (.bin .coalesce (.col .boolean) (.col .smallint)) = .integer ∧
-    annot T0 (.bin .coalesce (.col .date) (.col .timestampntz)) = .date ∧
-    eng T0 (.bin .coalesce (.col .date) (.col .timestampntz)) = .timestamp ∧
-    annot T0 (.tern .caseWhen (.col .boolean) (.strLit .other) .intLit) = .varchar ∧
-    eng T0 (.tern .caseWhen (.col .boolean) (.strLit .other) .intLit) = .integer := by decide +kernel
+/-- why `stepOk` looks at both accumulators: `COALESCE('abc', t.i, 1.5)` keeps INT (the literal accumulator stays VARCHAR,
+    the non-literal one wins) while DuckDB gives DECIMAL, although `COALESCE('abc', t.i)` and `COALESCE(t.i, 1.5)` both agree -/
+theorem nary_accumulators_disagree_witness :
+    let e := TExpr.nary .coalesce (.cons (.strLit .other) (.cons (c "i") (.cons .decLit .nil)))
+    annot T0 S0 e = .int ∧ eng T0 S0 e = .decimal ∧ WF T0 S0 e = false ∧
+    WF T0 S0 (.nary .coalesce (.cons (.strLit .other) (.cons (c "i") .nil))) = true ∧
+    WF T0 S0 (.nary .coalesce (.cons (c "i") (.cons .decLit .nil))) = true := by decide +kernel
 
 end SqlglotModel.Properties.C16
